@@ -8,7 +8,8 @@ from harness.gen import c06gen as G
 from harness.impl import c06impl as I
 
 IMPORTS = "From Ford Require Import Base.Str Sem.UseAssoc Corr.C06."
-THEOREMS = ["C06_full", "C06_fixed_rename", "C06_fixed_rename_across_statements",
+THEOREMS = ["C06_full", "C06_fixed_intrinsic_nature", "C06_project_module_first", "C06_intrinsic_never_project",
+            "C06_example_special", "C06_fixed_rename", "C06_fixed_rename_across_statements",
             "C06_fixed_private_reexport", "C06_fixed_only_empty", "C06_fixed_only_dup",
             "C06_order_independent", "C06_toposort_is_topo",
             "C06_private_never_imported", "C06_spec_private_never_accessible", "C06_fuel_enough",
@@ -61,7 +62,17 @@ def witness_only_dup():
     return [EXPORTER, mod("mb", uses=[use("ma", [("foo", "foo"), ("bar", "foo")])])]
 
 
-WITNESSES = [witness_rename, witness_across, witness_private, witness_only_empty, witness_only_dup]
+def witness_intrinsic_nature():
+    """module iso_fortran_env of the project; mb: use, intrinsic :: iso_fortran_env"""
+    return [mod("iso_fortran_env", "public", [("foo", "var", "public")]),
+            mod("mb", uses=[use("iso_fortran_env", prefix="intrinsic")]),
+            mod("mc", uses=[use("iso_fortran_env")]),
+            dict(mod("bdat", unit="blockdata", uses=[use("iso_fortran_env", prefix="intrinsic"), use("mc")]),
+                 decls=[{"name": "vy0", "kind": "var", "perm": "public", "how": "default", "ref": None, "function": False}])]
+
+
+WITNESSES = [witness_rename, witness_across, witness_private, witness_only_empty, witness_only_dup,
+             witness_intrinsic_nature]
 
 
 def exhaustive_layer():
@@ -434,6 +445,11 @@ def distribution(all_units):
     for units in all_units:
         mods = [u for u in units if u["unit"] == "module"]
         d["modules_per_graph"][len(mods)] = d["modules_per_graph"].get(len(mods), 0) + 1
+        special = [u["name"].lower() for u in mods if u["name"].lower() in G.SPECIAL_NAMES]
+        d["block_data_units"] = d.get("block_data_units", 0) + sum(1 for u in units if u["unit"] == "blockdata")
+        d["project_modules_named_like_intrinsic_or_extra_mods"] = d.get("project_modules_named_like_intrinsic_or_extra_mods", 0) + len(special)
+        d["use_statements_of_such_modules"] = d.get("use_statements_of_such_modules", 0) + sum(
+            1 for u in units for x in G.all_uses(u) if x["target"].lower() in special)
         names = {u["name"].lower(): u for u in mods}
         depth = {}
 
@@ -538,7 +554,7 @@ def run(chk):
     n_random = 240 if quick else 4000
     for k in range(n_random):
         knobs = {"regions": rng.random() < 0.25, "p_clash": 0.3 if rng.random() < 0.15 else 0.0,
-                 "p_nested": 0.6 if rng.random() < 0.4 else 0.0, "p_special": 0.35}
+                 "p_nested": 0.6 if rng.random() < 0.4 else 0.0, "p_special": 0.35, "p_blockdata": 0.2}
         units = G.gen_graph(rng, knobs)
         R.add(f"random:{k}", units, file_orders(rng, units, 2 if quick else 4),
               html=any(u["unit"] == "program" and any(d.get("ref") for d in u["decls"]) for u in units)
@@ -574,6 +590,10 @@ def replay_findings(chk):
     def back(what, units, t):
         chk.violation("failing-input", {"what": what, "units": units, "files": G.render_files(units)[0],
                                         "variables_seen": {n: o["all"][3] for n, o in t.items()}}, True)
+    t = tabs(witness_intrinsic_nature())
+    if not t or "foo" in dict(t["mb"]["all"][3]) or "foo" not in dict(t["mc"]["all"][3]):
+        back("`use, intrinsic :: iso_fortran_env` is matched with the project's module iso_fortran_env (or the "
+             "statement without module nature is not)", witness_intrinsic_nature(), t)
     t = tabs(witness_rename())
     keys = dict(t["mb"]["all"][3]) if t else {}
     if not t or "bar" not in keys or "foo" in keys:
